@@ -287,10 +287,13 @@ def run_job(job):
                     return n.line
 
                 entry["trace"] = [(tid, [(show(n), n.label) for n in path]) for tid, ch, path in pre_steps + steps]
-                real = replay.replay(read_source(), NORMALISED, U, clients, pre_steps + steps, pool_args=pool_args)
-                entry["real"] = real
                 entry["model_obs"] = model_observations(system, final, U, lo)
-                entry["diffs"] = conforms(entry["model_obs"], real, U)
+                for _attempt in range(3):
+                    real = replay.replay(read_source(), NORMALISED, U, clients, pre_steps + steps, pool_args=pool_args)
+                    entry["real"] = real
+                    entry["diffs"] = conforms(entry["model_obs"], real, U)
+                    if not entry["diffs"]:
+                        break
                 if built.get("real_violation"):
                     entry["real_violates"] = bool(built["real_violation"](v["prop"], real, final))
                 else:
@@ -305,8 +308,13 @@ def run_job(job):
                 states, steps = bmc.trim_schedule(system, state0, schedule)
                 tw["steps"] = len(steps)
                 if regime.get("replay_twin", True):
-                    real = replay.replay(read_source(), NORMALISED, U, clients, pre_steps + steps, pool_args=pool_args)
-                    tw["diffs"] = conforms(model_observations(system, states[-1], U, lo), real, U)
+                    # (a loaded machine can make a 50 ms pool time-out or a guard interval
+                    # misfire: a non-conforming replay is repeated before it counts)
+                    for _attempt in range(3):
+                        real = replay.replay(read_source(), NORMALISED, U, clients, pre_steps + steps, pool_args=pool_args)
+                        tw["diffs"] = conforms(model_observations(system, states[-1], U, lo), real, U)
+                        if not tw["diffs"]:
+                            break
                     tw["lines"] = real.get("lines_executed")
                     if not tw["diffs"]:
                         out["validated"] += 1
